@@ -58,6 +58,9 @@ func (t *scriptedTransport) RoundTrip(req *http.Request) (*http.Response, error)
 		resp.Body = io.NopCloser(bytes.NewReader(nil))
 	case 4: // more bytes than announced
 		resp.Body = &faultyBody{r: bytes.NewReader(append(append([]byte(nil), t.body...), []byte("TRAILING GARBAGE")...)), failAt: -1}
+	case 5: // close-delimited response (no Content-Length) whose connection drops half way
+		resp.ContentLength = -1
+		resp.Body = &faultyBody{r: bytes.NewReader(t.body[:len(t.body)/2]), failAt: -1}
 	default:
 		resp.Body = &faultyBody{r: bytes.NewReader(t.body), failAt: -1}
 	}
